@@ -399,6 +399,15 @@ func (w *World) eligibleOthers(g *G) []*G {
 	return out
 }
 
+func (w *World) oneShotPending() bool {
+	for _, e := range w.timers {
+		if e.period == 0 {
+			return true
+		}
+	}
+	return false
+}
+
 func (w *World) idleWaiter() *G {
 	for _, o := range w.gs {
 		if o.state == gParked && o.idle {
@@ -408,8 +417,9 @@ func (w *World) idleWaiter() *G {
 	return nil
 }
 
-// WaitIdle parks the caller until no other goroutine can run without the clock advancing:
-// everything already accepted has been carried as far as it can go.
+// WaitIdle parks the caller until no other goroutine can run and no one-shot timer (sleep, After,
+// AfterFunc, Timer) is pending: only periodic tickers could still wake anything up, so everything
+// already accepted has been carried as far as it can go.
 func WaitIdle() {
 	w := W
 	if w == nil {
@@ -528,7 +538,7 @@ func (w *World) switchFrom(g *G, op string) {
 			}
 			if len(els) == 0 {
 				// quiescent: first release a goroutine waiting for exactly that
-				if ig := w.idleWaiter(); ig != nil {
+				if ig := w.idleWaiter(); ig != nil && !w.oneShotPending() {
 					ig.idle = false
 					if ig == g {
 						g.state = gRunnable
